@@ -284,6 +284,11 @@ func writeGroupIni(cmd *Command, group *Group, namespace string, writer io.Write
 				}
 			}
 		default:
+			if kind == reflect.Ptr {
+				// Quoting depends on the kind of the pointed-to value
+				kind = val.Type().Elem().Kind()
+			}
+
 			v, _ := convertToString(val, option.tag)
 
 			writeOption(writer, oname, kind, "", v, commentOption, option.iniQuote)
